@@ -283,9 +283,25 @@ def shared_docs_cases():
     return st.tuples(st.lists(shared.map(mk), min_size=2, max_size=3), options(), st.integers(0, 2**30))
 
 
+def shared_scalar_cases():
+    """One date / datetime / aware datetime OBJECT referenced from several places (the representer anchors it): the fixed point
+    and the hash-seed independence must hold for aliased scalars too."""
+    scalar = st.one_of(gv.dates(), gv.datetimes())
+
+    def mk(t):
+        v, shape = t
+        leaf = ("s", v)
+        # build() returns the very same object for the same ("s", v) tuple instance
+        bp = [("l", [leaf, leaf]), ("d", [(("s", "start"), leaf), (("s", "end"), leaf), (("s", "l"), ("l", [leaf]))]),
+              ("l", [("d", [(("s", "a"), leaf)]), ("d", [(("s", "b"), leaf)]), leaf])][shape]
+        return bp
+    return st.tuples(st.lists(st.tuples(scalar, st.integers(0, 2)).map(mk), min_size=1, max_size=2), options(), st.integers(0, 2**30))
+
+
 def arms(tier):
     return [Arm("values", eval_case, cases, quick=9000, thorough=250000),
-            Arm("shared-docs", eval_case, shared_docs_cases, quick=3000, thorough=60000)]
+            Arm("shared-docs", eval_case, shared_docs_cases, quick=3000, thorough=60000),
+            Arm("shared-scalars", eval_case, shared_scalar_cases, quick=1500, thorough=40000)]
 
 
 REQUIRED_CLASSES = ["sort_keys:on", "sort_keys:off", "container>=3-keys", "set>=2-members", "anchors>=2", "docs>1-with-anchors",
